@@ -255,11 +255,12 @@ fn synth_world(seed: u64, async_ok: bool) -> String {
         let svc = format!("  interface svc {{\n    ping{d}: func(x: u32) -> u32;\n    pong: func(s: string) -> string;\n  }}\n");
         if d == 0 && r.pick(2) == 0 {
             // two versions of the same package, both in use
-            s.push_str(&format!("package verif:dep{d}@1.0.0 {{\n  interface {seg} {{\n{body}  }}\n{svc}}}\n\n"));
-            s.push_str(&format!("package verif:dep{d}@2.0.0 {{\n  interface {seg} {{\n{body}  }}\n}}\n\n"));
-            foreign.push((format!("verif:dep{d}/{seg}@1.0.0"), tys.clone()));
-            foreign.push((format!("verif:dep{d}/{seg}@2.0.0"), tys));
-            svcs.push(format!("verif:dep{d}/svc@1.0.0"));
+            // (a pre-release and its release: names derived from the version must keep them apart)
+            s.push_str(&format!("package verif:dep{d}@1.0.0-rc.1 {{\n  interface {seg} {{\n{body}  }}\n{svc}}}\n\n"));
+            s.push_str(&format!("package verif:dep{d}@1.0.0 {{\n  interface {seg} {{\n{body}    type only-in-release = u64;\n  }}\n}}\n\n"));
+            foreign.push((format!("verif:dep{d}/{seg}@1.0.0-rc.1"), tys.clone()));
+            foreign.push((format!("verif:dep{d}/{seg}@1.0.0"), tys));
+            svcs.push(format!("verif:dep{d}/svc@1.0.0-rc.1"));
         } else {
             s.push_str(&format!("package verif:dep{d} {{\n  interface {seg} {{\n{body}  }}\n{svc}}}\n\n"));
             foreign.push((format!("verif:dep{d}/{seg}"), tys));
